@@ -319,6 +319,10 @@ pub struct Printer<'a> {
     pub redundancy: bool,
     /// comments inserted so far, in textual order (C09 positions only)
     pub inserted: Vec<String>,
+    /// position kind of each inserted comment (parallel to `inserted`)
+    pub inserted_kinds: Vec<&'static str>,
+    /// admit comments before / after / at the end of top-level statements
+    pub statement_comments: bool,
     pub swallowed: usize,
     pub layout_edits: usize,
     pub position_kinds: std::collections::BTreeSet<&'static str>,
@@ -343,6 +347,8 @@ impl<'a> Printer<'a> {
             continuation_comments: false,
             redundancy: false,
             inserted: vec![],
+            inserted_kinds: vec![],
+            statement_comments: true,
             swallowed: 0,
             layout_edits: 0,
             position_kinds: Default::default(),
@@ -357,6 +363,7 @@ impl<'a> Printer<'a> {
         let b = bodies[self.tape.pick(bodies.len())];
         let c = format!("//{}#{}", b, self.counter);
         self.inserted.push(c.clone());
+        self.inserted_kinds.push(kind);
         self.position_kinds.insert(kind);
         c
     }
@@ -488,13 +495,13 @@ impl<'a> Printer<'a> {
             }
             out.push_str(&it);
             let last = i + 1 == n;
-            // end-of-line comment directly after the item (before the comma)
+            // end-of-line comment directly after the LAST item (the grammar admits an item's own
+            // end-of-line comment only where no comma follows on a later line)
             let mut eol_before_comma = false;
-            if multiline && allow_comments && self.comments && self.tape.chance(1, 8) {
-                let c = self.new_comment("after-item-before-comma");
+            if last && multiline && allow_comments && self.comments && self.tape.chance(1, 3) {
+                let c = self.new_comment("end-of-line-after-last-item");
                 out.push(' ');
                 out.push_str(&c);
-                out.push_str(&self.nl());
                 eol_before_comma = true;
             }
             if !last {
@@ -504,7 +511,7 @@ impl<'a> Printer<'a> {
                     out.push_str("  ");
                     out.push_str(&c);
                 }
-            } else if multiline && self.redundancy && self.tape.chance(1, 2) {
+            } else if multiline && !eol_before_comma && self.redundancy && self.tape.chance(1, 2) {
                 out.push(',');
                 self.layout_edits += 1;
                 if allow_comments && self.comments && !eol_before_comma && self.tape.chance(1, 6) {
@@ -723,7 +730,7 @@ impl<'a> Printer<'a> {
                     out.push('\n');
                 }
             }
-            if self.comments && self.tape.chance(1, 5) {
+            if self.comments && self.statement_comments && self.tape.chance(1, 5) {
                 let k = 1 + self.tape.pick(2);
                 for _ in 0..k {
                     let c = self.new_comment("standalone-line-before-statement");
@@ -732,13 +739,13 @@ impl<'a> Printer<'a> {
                 }
             }
             out.push_str(&self.statement(st));
-            if self.comments && self.tape.chance(1, 5) {
+            if self.comments && self.statement_comments && self.tape.chance(1, 5) {
                 let c = self.new_comment("end-of-line-after-statement");
                 out.push_str("  ");
                 out.push_str(&c);
             }
         }
-        if self.comments && self.tape.chance(1, 6) {
+        if self.comments && self.statement_comments && self.tape.chance(1, 6) {
             let c = self.new_comment("standalone-line-after-last-statement");
             out.push('\n');
             out.push_str(&c);
